@@ -221,6 +221,8 @@ CURVED = [
     ('mixed_LCQ', [('L', 0j, 4 + 0j), ('C', 4 + 0j, 6 + 2j, 5 + 5j, 2 + 4j), ('Q', 2 + 4j, -1 + 3j, 0j)]),
     ('figure8_CC', [('C', 0j, 3 + 3j, 3 - 3j, 6 + 0j), ('C', 6 + 0j, 3 + 3j, 3 - 3j, 0j)]),
     ('nondyadic', [('C', 0.1 + 0.2j, 1.3 + 0.7j, 0.9 + 2.1j, -0.4 + 1.7j), ('L', -0.4 + 1.7j, 0.1 + 0.2j)]),
+    ('penta_Q', [('Q', 0j, 2.1 - 1.3j, 4.3 + 0.2j), ('Q', 4.3 + 0.2j, 6.7 + 1.9j, 5.2 + 4.1j), ('Q', 5.2 + 4.1j, 3.9 + 6.3j, 1.8 + 5.2j),
+                 ('Q', 1.8 + 5.2j, -0.9 + 4.4j, -1.1 + 2.3j), ('Q', -1.1 + 2.3j, -1.7 + 0.6j, 0j)]),
 ]
 
 
@@ -245,6 +247,56 @@ def check_curved(name, acc):
     rr = outcome(lambda: p.reversed().area())
     if rr[0] != 'ok' or not abs(float(rr[1]) + float(exact)) <= 1e-11 * 64:
         acc.violation('area_transform', {'n': len(segs), 'shape': 'curved', 'transform': 'reversed'}, case, observed=rr, expected=-float(exact))
+
+
+def check_curved_enclosure(name, acc, only=None):
+    """path_encloses_pt on closed Bezier paths; the crossing parity of the probe is decided exactly
+    per segment (mc/isect.exact_line_bezier_count); probes include directions parallel to a
+    quadratic's axis a = P0 - 2 P1 + P2 (where the quadratic coefficient of the line equation vanishes)"""
+    from mc import isect
+    spec = dict(CURVED)[name]
+    segs = mk_curved(spec)
+    p = Path(*segs)
+    xs = [complex(q).real for s_ in segs for q in s_.bpoints()]
+    ys = [complex(q).imag for s_ in segs for q in s_.bpoints()]
+    x0, x1, y0, y1 = min(xs), max(xs), min(ys), max(ys)
+    pts = [complex(x0 + (x1 - x0) * (i + 0.37) / 4, y0 + (y1 - y0) * (j + 0.41) / 4) for i in range(4) for j in range(4)]
+    probes = []
+    far = max(x1 - x0, y1 - y0) * 7 + 13
+    for pt in pts:
+        for o in OUTSIDE:
+            probes.append((pt, complex(o[0] * 3 + x0, o[1] * 3 + y0)))
+        for s_ in segs:
+            b = list(s_.bpoints())
+            if len(b) == 3:
+                a = b[0] - 2 * b[1] + b[2]
+                if a != 0:
+                    probes.append((pt, pt + far * a / abs(a)))
+                    probes.append((pt, pt - far * a / abs(a)))
+            if len(b) == 4:
+                a = -b[0] + 3 * b[1] - 3 * b[2] + b[3]
+                if a != 0:
+                    probes.append((pt, pt + far * a / abs(a)))
+    for pt, opt in probes:
+        case = {'what': 'curved_encloses', 'name': name, 'pt': core.jz(pt), 'opt': core.jz(opt)}
+        if only and case != only:
+            continue
+        counts = [isect.exact_line_bezier_count(list(s_.bpoints()), pt, opt) for s_ in segs]
+        if any(c is None for c in counts):
+            acc.filt('curved_probe_not_in_general_position')
+            continue
+        # the far end must really be outside: its own probe to a very far generic point crosses evenly
+        far2 = complex(1e4 + 17.3, -2e4 + 5.1)
+        c2 = [isect.exact_line_bezier_count(list(s_.bpoints()), opt, far2) for s_ in segs]
+        if any(c is None for c in c2) or sum(c2) % 2 == 1:
+            acc.filt('curved_probe_far_end_not_outside')
+            continue
+        inside = sum(counts) % 2 == 1
+        acc.case(case, cls='curved_encloses/%s' % ('inside' if inside else 'outside'))
+        r = outcome(lambda: path_encloses_pt(pt, opt, p))
+        if r[0] != 'ok' or bool(r[1]) != inside:
+            acc.violation('encloses_wrong', {'shape': 'curved', 'expected_inside': inside}, case, observed=r, expected=inside,
+                          detail='exact crossings per segment %r' % counts)
 
 
 ELLIPSES = [(2.0, 2.0, 0.0), (3.0, 1.0, 0.0), (3.0, 1.0, 30.0), (1.0, 2.5, -45.0)]
@@ -331,6 +383,7 @@ def run_shard(desc, tier, seed):
     else:
         for name, _ in CURVED:
             check_curved(name, acc)
+            check_curved_enclosure(name, acc)
         for rx, ry, rot in ELLIPSES:
             for sw in (0, 1):
                 check_ellipse(rx, ry, rot, sw, acc)
@@ -343,7 +396,7 @@ def run_shard(desc, tier, seed):
 
 def expected_classes(tier):
     return ['area/ccw', 'area/cw', 'area/zero_area', 'area/curved', 'area/ellipse', 'encloses/inside', 'encloses/outside',
-            'contained/nested', 'contained/disjoint', 'contained/crossing', 'area/arcs_N1', 'area/arcs_Nmany', 'area_transform/reversed', 'area_transform/scaled_neg']
+            'contained/nested', 'contained/disjoint', 'contained/crossing', 'curved_encloses/inside', 'curved_encloses/outside', 'area/arcs_N1', 'area/arcs_Nmany', 'area_transform/reversed', 'area_transform/scaled_neg']
 
 
 def space(tier, seed):
@@ -364,6 +417,8 @@ def replay(case):
             acc.vlist = [v for v in acc.vlist if v['case'].get('q') == case['q']]
     elif w == 'containment':
         check_containment(tuple(case['outer']), tuple(case['inner']), case['emb'], case['factor'], complex(*case['shift']), acc)
+    elif w == 'curved_encloses':
+        check_curved_enclosure(case['name'], acc, only=case)
     elif w == 'curved':
         check_curved(case['name'], acc)
     elif w == 'rounded_rect':
